@@ -267,6 +267,84 @@ example : ((mrRead (witFailed 1) 0 512).1).1 = [] ∧ ((mrRead (witFailed 1) 0 5
 example : headerErrors true false true (parseHdr 0x89 0xFE) = ["len > 125 for control"] ∧
     isValidReceivedCloseCode 1005 = false ∧ isValidReceivedCloseCode 3000 = true := by decide
 
+/-- a SERVER connection (default handlers), reader idle after one ping; pending: a masked close frame with the
+    status 1005 (which may never appear on the wire) and reason "x", key a0 b0 c0 d0, split over buffer
+    and transport, then one stray byte -/
+def witSrvBadClose : Conn :=
+  { w := newW true 4096 false false,
+    r := { isServer := true, nego := false, hlog := [.ping [0x70]],
+           buf := { size := 4096, buf := (PFrame.enc true ⟨8, true, ⟨0xa0, 0xb0, 0xc0, 0xd0⟩, beBytes 2 1005 ++ [0x78]⟩).take 3,
+                    t := { chunks := [(PFrame.enc true ⟨8, true, ⟨0xa0, 0xb0, 0xc0, 0xd0⟩, beBytes 2 1005 ++ [0x78]⟩).drop 3 ++ [0xAA]] },
+                    total := 10 } } }
+
+def witSrvBadClose_atBoundary : AtBoundary witSrvBadClose :=
+  ⟨rfl, rfl, ⟨by decide, by decide, by decide, (by intro e h; cases h)⟩, by decide⟩
+
+/-- the bytes really are a masked close frame: header 88 83, key, (03 ED 78) XOR key -/
+example : witSrvBadClose.r.buf.pending =
+    [0x88, 0x83, 0xa0, 0xb0, 0xc0, 0xd0, 0x03 ^^^ 0xa0, 0xED ^^^ 0xb0, 0x78 ^^^ 0xc0, 0xAA] := by decide
+
+/-- non-vacuity of `bad_close_code_rejected` (server reader): all hypotheses hold for `witSrvBadClose`,
+    status 1005, reason "x", masked with a non-zero key -/
+example : ∃ msg c', advanceFrame witSrvBadClose = (.error (.protocol msg), c') ∧ c'.r.hlog = witSrvBadClose.r.hlog ∧
+      c'.w.wire = witSrvBadClose.w.wire ++ closeFrameBytes witSrvBadClose.w ((closePayload 1002 (strBytes msg)).take 125) ∧
+      c'.w.writeErr = some .closeSent :=
+  bad_close_code_rejected witSrvBadClose witSrvBadClose_atBoundary ⟨rfl, rfl⟩ ⟨0xa0, 0xb0, 0xc0, 0xd0⟩ 1005 [0x78] [0xAA]
+    (by decide) (by decide) (by decide) (by decide)
+
+/-- evaluated: the close handler did not run (the log still holds only the earlier ping), a protocol error
+    is returned, and the server's (unmasked) close frame carries 1002 -/
+example : (advanceFrame witSrvBadClose).2.r.hlog = [.ping [0x70]] ∧
+    (advanceFrame witSrvBadClose).2.w.wire = 0x88 :: 21 :: 0x03 :: 0xEA :: strBytes "bad close code 1005" ∧
+    (advanceFrame witSrvBadClose).2.w.writeErr = some .closeSent := by decide +kernel
+
+/-- a CLIENT connection in the middle of a fragmented message; pending: an (unmasked) close frame with the
+    status 999 and reason "no", then a ping header -/
+def witCliBadClose : Conn :=
+  { w := { newW false 4096 false false with keys := [1, 2, 3, 4, 5, 6, 7, 8] },
+    r := { isServer := false, nego := false, final := false, length := 3, msgReader := some 0, nextId := 1,
+           hlog := [.pong [9]],
+           buf := { size := 4096, buf := [0x88, 0x04, 0x03],
+                    t := { chunks := [[0xE7, 0x6e], [0x6f, 0x89, 0x00]] }, total := 8 } } }
+
+def witCliBadClose_atBoundary : AtBoundary witCliBadClose :=
+  ⟨rfl, rfl, ⟨by decide, by decide, by decide, (by intro e h; cases h)⟩, by decide⟩
+
+/-- non-vacuity of `bad_close_code_rejected` (client reader, mid-message): status 999, reason "no" -/
+example : ∃ msg c', advanceFrame witCliBadClose = (.error (.protocol msg), c') ∧ c'.r.hlog = witCliBadClose.r.hlog ∧
+      c'.w.wire = witCliBadClose.w.wire ++ closeFrameBytes witCliBadClose.w ((closePayload 1002 (strBytes msg)).take 125) ∧
+      c'.w.writeErr = some .closeSent :=
+  bad_close_code_rejected witCliBadClose witCliBadClose_atBoundary ⟨rfl, rfl⟩ ⟨0, 0, 0, 0⟩ 999 [0x6e, 0x6f] [0x89, 0x00]
+    (by decide) (by decide) (by decide) (by decide)
+
+/-- a SERVER connection, reader idle; pending: a masked close frame with the accepted status 1000 but the
+    reason bytes ff fe (not UTF-8), key 37 fa 21 3d, then two further bytes -/
+def witSrvBadUtf8 : Conn :=
+  { w := newW true 4096 false false,
+    r := { isServer := true, nego := false, hlog := [.ping [0x70]],
+           buf := { size := 4096, buf := (PFrame.enc true ⟨8, true, ⟨0x37, 0xfa, 0x21, 0x3d⟩, beBytes 2 1000 ++ [0xff, 0xfe]⟩).take 5,
+                    t := { chunks := [(PFrame.enc true ⟨8, true, ⟨0x37, 0xfa, 0x21, 0x3d⟩, beBytes 2 1000 ++ [0xff, 0xfe]⟩).drop 5, [0x89, 0x80]] },
+                    total := 12 } } }
+
+def witSrvBadUtf8_atBoundary : AtBoundary witSrvBadUtf8 :=
+  ⟨rfl, rfl, ⟨by decide, by decide, by decide, (by intro e h; cases h)⟩, by decide⟩
+
+example : witSrvBadUtf8.r.buf.pending =
+    [0x88, 0x84, 0x37, 0xfa, 0x21, 0x3d, 0x03 ^^^ 0x37, 0xE8 ^^^ 0xfa, 0xff ^^^ 0x21, 0xfe ^^^ 0x3d, 0x89, 0x80] := by decide
+
+/-- non-vacuity of `bad_close_utf8_rejected`: all hypotheses hold for `witSrvBadUtf8`, status 1000,
+    reason ff fe -/
+example : ∃ msg c', advanceFrame witSrvBadUtf8 = (.error (.protocol msg), c') ∧ c'.r.hlog = witSrvBadUtf8.r.hlog ∧
+      c'.w.wire = witSrvBadUtf8.w.wire ++ closeFrameBytes witSrvBadUtf8.w ((closePayload 1002 (strBytes msg)).take 125) ∧
+      c'.w.writeErr = some .closeSent :=
+  bad_close_utf8_rejected witSrvBadUtf8 witSrvBadUtf8_atBoundary ⟨rfl, rfl⟩ ⟨0x37, 0xfa, 0x21, 0x3d⟩ 1000 [0xff, 0xfe] [0x89, 0x80]
+    (by decide) (by decide) (by decide) (by decide) (by decide)
+
+/-- evaluated through NextReader (which latches what advanceFrame returned): which protocol errors these are -/
+example : (nextReader witSrvBadClose).2.r.readErr = some (.protocol "bad close code 1005") ∧
+    (nextReader witCliBadClose).2.r.readErr = some (.protocol "bad close code 999") ∧
+    (nextReader witSrvBadUtf8).2.r.readErr = some (.protocol "invalid utf8 payload in close frame") := by decide
+
 end NonVacuity
 
 end WS.Props.C04
